@@ -17,7 +17,9 @@ for pid in sorted(propcfg.PROPS):
         "evidence_file": "/verif/evidence/%s.json" % pid,
         "replay_cmd_template": "./check replay {path}",
         "engine": "pgverif",
-        "level_claimed": {"category": cfg["level"], "text": t["level_text"], "design_ref": "DESIGN.md §4 " + pid},
+        "level_claimed": {"category": cfg["level"],
+                          "text": t["level_text"] + (" The same oracle also runs on a `shipping` build of the library (opt-level 3, overflow checks and debug assertions off: what users of the crate run). The workload generators were extended through fifteen rounds of independently seeded breaking changes (DESIGN.md §13.5 lists per round what was added and why); `tools/propcfg.py` holds the current rule text and the minimum-event thresholds that make a run inconclusive when it did not reach the situations it claims." if any(st["variant"] == "shipping" for st in cfg["stages"]["quick"]) else " The workload generators were extended through fifteen rounds of independently seeded breaking changes (DESIGN.md §13.5); `tools/propcfg.py` holds the current rule text and minimum-event thresholds."),
+                          "design_ref": "DESIGN.md §4 and §13 " + pid},
         "level_note": t["level_note"],
         "technique": t["technique"],
     })
